@@ -117,6 +117,13 @@ var awkwardCatalogue = []awkward{
 	{"alias", func() any { return MyStack(stackage.Or().Push(1)) }},
 	{"condition", func() any { return stackage.Cond("k", stackage.Eq, "v") }},
 	{"operatorless-condition", func() any { var c stackage.Condition; c.Init(); c.SetKeyword("k"); c.SetExpression("v"); return c }},
+	{"slice-of-nil-ptr", func() any { return []*int{nil} }},
+	{"slice-with-nil-ptr", func() any { x := 1; return []*int{&x, nil} }},
+	{"map-with-nil-ptr", func() any { return map[string]*int{"a": nil} }},
+	{"struct-with-nil-ptr-field", func() any { return ptrStruct{} }},
+	{"array-of-nil-ptr", func() any { return [2]*string{} }},
+	{"slice-of-any-nil", func() any { return []any{nil} }},
+	{"ptr-to-slice-of-nil-ptr", func() any { s := []*int{nil}; return &s }},
 	{"plain-string", func() any { return "plain" }},
 	{"plain-int", func() any { return 3 }},
 	// values that are meaningful to setters taking `any` (loggers, log levels, delimiters, symbols, encapsulation)
